@@ -13,7 +13,7 @@ open Common
 section Induction
 set_option linter.unusedSectionVars false
 variable {P : SetShape → Prop}
-  (hsingle : ∀ sg wr fk, P (.single sg wr fk))
+  (hsingle : ∀ sg wr fk cs, P (.single sg wr fk cs))
   (hopt : ∀ s, P s → P (.opt s))
   (hvec : ∀ s, P s → P (.vec s))
   (harr : ∀ n s, P s → P (.arr n s))
@@ -24,7 +24,7 @@ include hsingle hopt hvec harr hboxed hstruct hrest
 
 mutual
 theorem SetShape.ind : (s : SetShape) → P s
-  | .single sg wr fk => hsingle sg wr fk
+  | .single sg wr fk cs => hsingle sg wr fk cs
   | .opt s => hopt s (SetShape.ind s)
   | .vec s => hvec s (SetShape.ind s)
   | .arr n s => harr n s (SetShape.ind s)
@@ -90,19 +90,32 @@ theorem Covers.keyEq {a : Acct} {m : Meta} (h : Covers a m) : KeyEq a m := h.1
 
 /-! ## decode ∘ client -/
 
+theorem runChecks_ok (a : Acct) : ∀ (cs : List Chk),
+    (∀ c ∈ cs, (match c with | .signer => a.signer | .writable => a.writable) = true) →
+    runChecks cs a = .ok () := by
+  intro cs
+  induction cs with
+  | nil => intro _; rfl
+  | cons c cs ih =>
+    intro h
+    have hc := h c List.mem_cons_self
+    have ih' := ih (fun c' hc' => h c' (List.mem_cons_of_mem _ hc'))
+    cases c <;> simp_all [runChecks]
+
 /-- What the round trip says about one shape. -/
 def RT (pid : Key) (s : SetShape) : Prop :=
   ∀ arg v accts tail, fits pid s arg v = true → All2 KeyEq accts (clientMetas pid s v) →
     (restFree s = true ∨ tail = []) →
     ∃ sv, decode pid s arg (accts ++ tail) = .ok (sv, tail) ∧ svTyped s sv = true ∧
       toClient s sv = resolve s v ∧
-      (addrOk s v = true → All2 Covers accts (clientMetas pid s v) → validate s sv = .ok ())
+      (metaCovers s = true → addrOk s v = true → All2 Covers accts (clientMetas pid s v) →
+        validate s sv = .ok ())
 
 /-- The same for a run of elements of one shape decoded one after the other. -/
 def RTList (pid : Key) (s : SetShape) (vs : List ClientVal) (accts : List Acct)
     (svs : List SetVal) : Prop :=
   svs.length = vs.length ∧ svs.all (svTyped s) = true ∧ svs.map (toClient s) = vs.map (resolve s) ∧
-    (vs.all (addrOk s) = true → All2 Covers accts (vs.flatMap (clientMetas pid s)) →
+    (metaCovers s = true → vs.all (addrOk s) = true → All2 Covers accts (vs.flatMap (clientMetas pid s)) →
       allOk (validate s) svs = .ok ())
 
 theorem iterN_rt {pid : Key} {s : SetShape} (ih : RT pid s) (hrf : restFree s = true) (arg : DecodeArg) :
@@ -128,14 +141,14 @@ theorem iterN_rt {pid : Key} {s : SetShape} (ih : RT pid s) (hrf : restFree s = 
     · simp [hlen]
     · simp [hty, htys]
     · simp [hcl, hcls]
-    · intro ha hc
+    · intro hmc ha hc
       simp only [List.all_cons, Bool.and_eq_true] at ha
       rw [List.flatMap_cons] at hc
       obtain ⟨c1, c2, hsplit, hc1, hc2⟩ := hc.split
       have hl1 : c1.length = a1.length := by rw [hc1.length_eq, h1.length_eq]
       have ⟨e1, e2⟩ := List.append_inj hsplit hl1.symm
       subst e1 e2
-      simp [allOk, hval ha.1 hc1, hvals ha.2 hc2]
+      simp [allOk, hval hmc ha.1 hc1, hvals hmc ha.2 hc2]
 
 theorem iterRest_rt {pid : Key} {s : SetShape} (ih : RT pid s) (hrf : restFree s = true) (arg : DecodeArg) :
     ∀ (vs : List ClientVal) (accts : List Acct) (fuel : Nat), accts.length ≤ fuel →
@@ -172,14 +185,14 @@ theorem iterRest_rt {pid : Key} {s : SetShape} (ih : RT pid s) (hrf : restFree s
       · simp [hlen]
       · simp [hty, htys]
       · simp [hcl, hcls]
-      · intro ha hc
+      · intro hmc ha hc
         simp only [List.all_cons, Bool.and_eq_true] at ha
         rw [List.flatMap_cons] at hc
         obtain ⟨c1, c2, hsplit, hc1, hc2⟩ := hc.split
         have hl1 : c1.length = (x :: r).length := by rw [hc1.length_eq, h1.length_eq]
         have ⟨e1, e2⟩ := List.append_inj hsplit hl1.symm
         subst e1 e2
-        simp [allOk, hval ha.1 hc1, hvals ha.2 hc2]
+        simp [allOk, hval hmc ha.1 hc1, hvals hmc ha.2 hc2]
 
 theorem fields_rt {pid : Key} :
     ∀ (fs : List SetShape), (∀ s ∈ fs, RT pid s) →
@@ -188,8 +201,8 @@ theorem fields_rt {pid : Key} :
       (restFreeFields fs = true ∨ tail = []) →
       ∃ svs, decodeFields pid fs as (accts ++ tail) = .ok (svs, tail) ∧ svTypedFields fs svs = true ∧
         toClientFields fs svs = resolveFields fs vs ∧
-        (addrOkFields fs vs = true → All2 Covers accts (clientMetasFields pid fs vs) →
-          validateFields fs svs = .ok ()) := by
+        (metaCoversFields fs = true → addrOkFields fs vs = true →
+          All2 Covers accts (clientMetasFields pid fs vs) → validateFields fs svs = .ok ()) := by
   intro fs
   induction fs with
   | nil =>
@@ -234,20 +247,21 @@ theorem fields_rt {pid : Key} :
     · simp only [decodeFields, List.append_assoc, hd, hds]
     · simp [svTypedFields, hty, htys]
     · simp [toClientFields, resolveFields, hcl, hcls]
-    · intro ha hc
+    · intro hmc ha hc
+      simp only [metaCoversFields, Bool.and_eq_true] at hmc
       simp only [addrOkFields, Bool.and_eq_true] at ha
       simp only [clientMetasFields] at hc
       obtain ⟨c1, c2, hsplit, hc1, hc2⟩ := hc.split
       have hl1 : c1.length = a1.length := by rw [hc1.length_eq, h1.length_eq]
       have ⟨e1, e2⟩ := List.append_inj hsplit hl1.symm
       subst e1 e2
-      simp [validateFields, hval ha.1 hc1, hvals ha.2 hc2]
+      simp [validateFields, hval hmc.1 ha.1 hc1, hvals hmc.2 ha.2 hc2]
 
 /-- The round trip, for every shape. -/
 theorem rt_all (pid : Key) : ∀ s, RT pid s := by
   intro s
   induction s using SetShape.ind with
-  | hsingle sg wr fk =>
+  | hsingle sg wr fk cs =>
     intro arg v accts tail hf h _
     cases arg <;> cases v <;> simp [fits] at hf
     rename_i k
@@ -257,7 +271,8 @@ theorem rt_all (pid : Key) : ∀ s, RT pid s := by
     subst this
     refine ⟨.acct a, by simp [decode], by simp [svTyped], ?_, ?_⟩
     · simp only [toClient, resolve]; rw [hk]
-    · intro ha hc
+    · intro hmc ha hc
+      simp only [metaCovers, List.all_eq_true] at hmc
       simp only [clientMetas] at hc
       obtain ⟨a', _, hcons, hcov, _⟩ := hc.cons_inv
       obtain rfl : a = a' := by cases hcons; rfl
@@ -279,7 +294,12 @@ theorem rt_all (pid : Key) : ∀ s, RT pid s := by
           have hs' : sg = true → a.signer = true := hs
           have hw' : wr = true → a.writable = true := hw
           rw [if_neg h1]
-          cases sg <;> cases wr <;> simp_all
+          apply runChecks_ok
+          intro c hc
+          have := hmc c hc
+          cases c
+          · exact hs' this
+          · exact hw' this
   | hopt s ih =>
     intro arg v accts tail hf h htail
     cases v with
@@ -309,10 +329,11 @@ theorem rt_all (pid : Key) : ∀ s, RT pid s := by
           refine ⟨.present sv, ?_, by simpa [svTyped] using hty, by simp [toClient, resolve, hcl], ?_⟩
           · simp only [List.cons_append] at hd ⊢
             simp [decode, hne, hd]
-          · intro ha hc
+          · intro hmc ha hc
             simp only [addrOk] at ha
+            simp only [metaCovers] at hmc
             simp only [clientMetas] at hc
-            simpa [validate] using hval ha (hm ▸ hc)
+            simpa [validate] using hval hmc ha (hm ▸ hc)
     | key _ => simp [fits] at hf
     | many _ => simp [fits] at hf
   | hvec s ih =>
@@ -327,10 +348,11 @@ theorem rt_all (pid : Key) : ∀ s, RT pid s := by
         obtain ⟨svs, hd, hl, hty, hcl, hval⟩ := iterN_rt ih hrf inner vs accts tail hall h
         refine ⟨.many svs, ?_, by simpa [svTyped] using hty, by simp [toClient, resolve, hcl], ?_⟩
         · simp [decode, ← hlen, hd]
-        · intro ha hc
+        · intro hmc ha hc
           simp only [addrOk] at ha
+          simp only [metaCovers] at hmc
           simp only [clientMetas] at hc
-          simpa [validate] using hval ha hc
+          simpa [validate] using hval hmc ha hc
       | _ => simp [fits] at hf
     | _ => cases v <;> simp [fits] at hf
   | harr n s ih =>
@@ -344,10 +366,11 @@ theorem rt_all (pid : Key) : ∀ s, RT pid s := by
       refine ⟨.many svs, ?_, ?_, by simp [toClient, resolve, hcl], ?_⟩
       · simp [decode, ← hlen, hd]
       · simp [svTyped, hty, hl, hlen]
-      · intro ha hc
+      · intro hmc ha hc
         simp only [addrOk] at ha
+        simp only [metaCovers] at hmc
         simp only [clientMetas] at hc
-        simpa [validate] using hval ha hc
+        simpa [validate] using hval hmc ha hc
     | _ => cases arg <;> simp [fits] at hf
   | hboxed s ih =>
     intro arg v accts tail hf h htail
@@ -356,10 +379,11 @@ theorem rt_all (pid : Key) : ∀ s, RT pid s := by
     have htail' : restFree s = true ∨ tail = [] := by simpa [restFree] using htail
     obtain ⟨sv, hd, hty, hcl, hval⟩ := ih arg v accts tail hf' h' htail'
     refine ⟨sv, by simpa [decode] using hd, by simpa [svTyped] using hty, by simpa [toClient, resolve] using hcl, ?_⟩
-    intro ha hc
+    intro hmc ha hc
+    have hmc' : metaCovers s = true := by simpa [metaCovers] using hmc
     have ha' : addrOk s v = true := by simpa [addrOk] using ha
     have hc' : All2 Covers accts (clientMetas pid s v) := by simpa [clientMetas] using hc
-    simpa [validate] using hval ha' hc'
+    simpa [validate] using hval hmc' ha' hc'
   | hstruct fs ih =>
     intro arg v accts tail hf h htail
     cases arg with
@@ -371,10 +395,11 @@ theorem rt_all (pid : Key) : ∀ s, RT pid s := by
         have htail' : restFreeFields fs = true ∨ tail = [] := by simpa [restFree] using htail
         obtain ⟨svs, hd, hty, hcl, hval⟩ := fields_rt fs ih as vs accts tail hf h htail'
         refine ⟨.many svs, by simp [decode, hd], by simpa [svTyped] using hty, by simp [toClient, resolve, hcl], ?_⟩
-        intro ha hc
+        intro hmc ha hc
         simp only [addrOk] at ha
+        simp only [metaCovers] at hmc
         simp only [clientMetas] at hc
-        simpa [validate] using hval ha hc
+        simpa [validate] using hval hmc ha hc
       | _ => simp [fits] at hf
     | _ => cases v <;> simp [fits] at hf
   | hrest s ih =>
@@ -389,10 +414,11 @@ theorem rt_all (pid : Key) : ∀ s, RT pid s := by
       obtain ⟨svs, hd, hl, hty, hcl, hval⟩ := iterRest_rt ih hrf arg vs accts accts.length (Nat.le_refl _) hall h
       refine ⟨.many svs, ?_, by simpa [svTyped] using hty, by simp [toClient, resolve, hcl], ?_⟩
       · simp [decode, hd]
-      · intro ha hc
+      · intro hmc ha hc
         simp only [addrOk] at ha
+        simp only [metaCovers] at hmc
         simp only [clientMetas] at hc
-        simpa [validate] using hval ha hc
+        simpa [validate] using hval hmc ha hc
     | _ => cases arg <;> simp [fits] at hf
 
 /-! ## CPI view vs client view -/
@@ -413,7 +439,7 @@ theorem cpiMetas_eq_client (pid : Key) : ∀ s sv, svTyped s sv = true →
     cpiMetas pid s sv = clientMetas pid s (toClient s sv) := by
   intro s
   induction s using SetShape.ind with
-  | hsingle sg wr fk => intro sv h; cases sv <;> simp [svTyped] at h; simp [cpiMetas, toClient, clientMetas]
+  | hsingle sg wr fk cs => intro sv h; cases sv <;> simp [svTyped] at h; simp [cpiMetas, toClient, clientMetas]
   | hopt s ih =>
     intro sv h
     cases sv <;> simp [svTyped] at h
@@ -455,7 +481,7 @@ theorem clientMetas_resolve (pid : Key) : ∀ s v, typed s v = true →
     clientMetas pid s (resolve s v) = clientMetas pid s v := by
   intro s
   induction s using SetShape.ind with
-  | hsingle sg wr fk => intro v h; cases v <;> simp [typed] at h; simp [resolve, clientMetas]
+  | hsingle sg wr fk cs => intro v h; cases v <;> simp [typed] at h; simp [resolve, clientMetas]
   | hopt s ih =>
     intro v h
     cases v <;> simp [typed] at h
@@ -496,7 +522,7 @@ theorem clientMetas_resolve (pid : Key) : ∀ s v, typed s v = true →
 theorem fits_typed (pid : Key) : ∀ s arg v, fits pid s arg v = true → typed s v = true := by
   intro s
   induction s using SetShape.ind with
-  | hsingle sg wr fk => intro arg v h; cases arg <;> cases v <;> simp [fits] at h; simpa [typed] using h
+  | hsingle sg wr fk cs => intro arg v h; cases arg <;> cases v <;> simp [fits] at h; simpa [typed] using h
   | hopt s ih =>
     intro arg v h
     cases v <;> simp [fits] at h
@@ -548,7 +574,7 @@ theorem cpiInfos_some (p : Acct) : ∀ s sv, svTyped s sv = true →
     ∃ l, cpiInfos (some p) s sv = .ok l ∧ l.map (·.key) = (cpiMetas p.key s sv).map (·.key) := by
   intro s
   induction s using SetShape.ind with
-  | hsingle sg wr fk => intro sv h; cases sv <;> simp [svTyped] at h; exact ⟨_, rfl, by simp [cpiMetas]⟩
+  | hsingle sg wr fk cs => intro sv h; cases sv <;> simp [svTyped] at h; exact ⟨_, rfl, by simp [cpiMetas]⟩
   | hopt s ih =>
     intro sv h
     cases sv <;> simp [svTyped] at h
@@ -597,7 +623,7 @@ theorem cpiInfos_optFree (p : Acct) : ∀ s sv, optFree s = true →
     cpiInfos none s sv = cpiInfos (some p) s sv := by
   intro s
   induction s using SetShape.ind with
-  | hsingle sg wr fk => intro sv _; cases sv <;> simp [cpiInfos]
+  | hsingle sg wr fk cs => intro sv _; cases sv <;> simp [cpiInfos]
   | hopt s ih => intro sv h; simp [optFree] at h
   | hvec s ih =>
     intro sv h
@@ -627,29 +653,26 @@ theorem cpiInfos_optFree (p : Acct) : ∀ s sv, optFree s = true →
     cases sv <;> simp [cpiInfos]
     exact collectE_congr _ (fun x _ => ih x (by simpa [optFree] using h))
 
-/-- Away from arrays of optionals, `ContainsOption = False` really means "no `Option` inside". -/
-theorem optFree_of_containsOption_false : ∀ s, arrOptFree s = true → containsOption s = false →
-    optFree s = true := by
+/-- `ContainsOption = False` really means "no `Option` inside". -/
+theorem optFree_of_containsOption_false : ∀ s, containsOption s = false → optFree s = true := by
   intro s
   induction s using SetShape.ind with
-  | hsingle sg wr fk => intro _ _; rfl
-  | hopt s ih => intro _ h; simp [containsOption] at h
-  | hvec s ih => intro h1 h2; simpa [optFree] using ih (by simpa [arrOptFree] using h1) (by simpa [containsOption] using h2)
-  | harr n s ih => intro h1 _; simpa [optFree, arrOptFree] using h1
-  | hboxed s ih => intro h1 h2; simpa [optFree] using ih (by simpa [arrOptFree] using h1) (by simpa [containsOption] using h2)
+  | hsingle sg wr fk cs => intro _; rfl
+  | hopt s ih => intro h; simp [containsOption] at h
+  | hvec s ih => intro h2; simpa [optFree] using ih (by simpa [containsOption] using h2)
+  | harr n s ih => intro h2; simpa [optFree] using ih (by simpa [containsOption] using h2)
+  | hboxed s ih => intro h2; simpa [optFree] using ih (by simpa [containsOption] using h2)
   | hstruct fs ih =>
-    intro h1 h2
-    simp only [arrOptFree] at h1
+    intro h2
     simp only [containsOption] at h2
     simp only [optFree]
     induction fs with
     | nil => rfl
     | cons f fs ihl =>
-      simp only [arrOptFreeFields, Bool.and_eq_true] at h1
       simp only [containsOptionFields, Bool.or_eq_false_iff] at h2
       simp only [optFreeFields, Bool.and_eq_true]
-      exact ⟨ih f List.mem_cons_self h1.1 h2.1, ihl (fun s hs => ih s (List.mem_cons_of_mem _ hs)) h1.2 h2.2⟩
-  | hrest s ih => intro h1 h2; simpa [optFree] using ih (by simpa [arrOptFree] using h1) (by simpa [containsOption] using h2)
+      exact ⟨ih f List.mem_cons_self h2.1, ihl (fun s hs => ih s (List.mem_cons_of_mem _ hs)) h2.2⟩
+  | hrest s ih => intro h2; simpa [optFree] using ih (by simpa [containsOption] using h2)
 
 theorem flatMap_length_const {α β : Type} (f : α → List β) (L : Nat) :
     ∀ (l : List α), (∀ x ∈ l, (f x).length = L) → (l.flatMap f).length = l.length * L := by
@@ -667,7 +690,7 @@ theorem cpiMetas_length_fixed (pid : Key) : ∀ s sv, svTyped s sv = true → ac
     (cpiMetas pid s sv).length = accountLen s := by
   intro s
   induction s using SetShape.ind with
-  | hsingle sg wr fk => intro sv h _; cases sv <;> simp [svTyped] at h; simp [cpiMetas, accountLen]
+  | hsingle sg wr fk cs => intro sv h _; cases sv <;> simp [svTyped] at h; simp [cpiMetas, accountLen]
   | hopt s ih =>
     intro sv h hl
     simp only [accountLen, dynLen] at hl
@@ -725,7 +748,7 @@ theorem clientMetas_flags (pid : Key) : ∀ s v, ∀ m ∈ clientMetas pid s v,
     (m.signer, m.writable) ∈ (false, false) :: staticFlags s := by
   intro s
   induction s using SetShape.ind with
-  | hsingle sg wr fk =>
+  | hsingle sg wr fk cs =>
     intro v m hm
     cases v <;> simp [clientMetas] at hm
     subst hm
@@ -790,7 +813,7 @@ theorem deArg_serArg : ∀ s arg r, argTyped s arg = true → argInRange arg = t
     deArg s (serArg arg ++ r) = some (arg, r) := by
   intro s
   induction s using SetShape.ind with
-  | hsingle sg wr fk => intro arg r h _; cases arg <;> simp [argTyped] at h; simp [deArg, serArg]
+  | hsingle sg wr fk cs => intro arg r h _; cases arg <;> simp [argTyped] at h; simp [deArg, serArg]
   | hopt s ih => intro arg r h hr; simpa [deArg] using ih arg r (by simpa [argTyped] using h) hr
   | hvec s ih =>
     intro arg r h hr
